@@ -46,6 +46,10 @@ func (s *Session) SendPresence(ctx context.Context, r xml.TokenReader) (xmlstrea
 
 	// If there's no ID, add one.
 	idx, _, id, typ := getIDTyp(start.Attr)
+	if id == "" {
+		// The id is set below: work on a copy, the slice belongs to the caller.
+		start.Attr = append(make([]xml.Attr, 0, len(start.Attr)+1), start.Attr...)
+	}
 	if idx == -1 {
 		idx = len(start.Attr)
 		start.Attr = append(start.Attr, xml.Attr{Name: xml.Name{Local: "id"}, Value: ""})
